@@ -111,22 +111,23 @@ type line struct {
 // ---------------------------------------------------------------- per-property plan
 
 type plan struct {
-	Quick         int      `json:"quick"`          // cases per VERIF_SEED value, quick tier
-	Thorough      int      `json:"thorough"`       // cases per VERIF_SEED value, thorough tier
-	ThoroughSeeds int      `json:"thorough_seeds"` // how many seed values the thorough tier iterates
-	Batch         int      `json:"batch"`          // cases per worker job
-	Race          bool     `json:"race"`           // build with -race
-	Level         string   `json:"level"`          // exploration | fault_enumeration
-	Rule          string   `json:"rule"`
-	Helper        bool     `json:"helper"` // build the C21 helper
-	Real          []string `json:"real"`
-	Stub          []string `json:"stub"`
-	JobTimeoutSec int      `json:"job_timeout_sec"`
-	CaseStallSec  int      `json:"case_stall_sec"`   // per-case wall-clock watchdog (0: none)
-	DetVerdict    bool     `json:"det_verdict_only"` // a real peer process takes part: compare verdicts, not decision traces
-	DetFresh      bool     `json:"det_fresh"`        // determinism self-test compares single-case fresh processes (stateful harness)
-	StallIsHang   bool     `json:"stall_is_hang"`    // a reproducible stall is a hang of the program under test
-	Exhaustive    bool     `json:"exhaustive"`       // the harness enumerates a finite space completely
+	Quick          int      `json:"quick"`          // cases per VERIF_SEED value, quick tier
+	Thorough       int      `json:"thorough"`       // cases per VERIF_SEED value, thorough tier
+	ThoroughSeeds  int      `json:"thorough_seeds"` // how many seed values the thorough tier iterates
+	Batch          int      `json:"batch"`          // cases per worker job
+	Race           bool     `json:"race"`           // build with -race
+	Level          string   `json:"level"`          // exploration | fault_enumeration
+	Rule           string   `json:"rule"`
+	Helper         bool     `json:"helper"` // build the C21 helper
+	Real           []string `json:"real"`
+	Stub           []string `json:"stub"`
+	JobTimeoutSec  int      `json:"job_timeout_sec"`
+	CaseStallSec   int      `json:"case_stall_sec"`   // per-case wall-clock watchdog (0: none)
+	IgnoreLiveness bool     `json:"ignore_liveness"`  // hang/deadlock verdicts are not judged by this property
+	DetVerdict     bool     `json:"det_verdict_only"` // a real peer process takes part: compare verdicts, not decision traces
+	DetFresh       bool     `json:"det_fresh"`        // determinism self-test compares single-case fresh processes (stateful harness)
+	StallIsHang    bool     `json:"stall_is_hang"`    // a reproducible stall is a hang of the program under test
+	Exhaustive     bool     `json:"exhaustive"`       // the harness enumerates a finite space completely
 }
 
 var commonReal = []string{"all murex code on the simulated path (instrumented only by mxinstr rules R1-R6)", "Go runtime 1.26.8", "testing/synctest fake clock and quiescence"}
@@ -799,6 +800,7 @@ func check(prop, tier string) int {
 	var samples []any
 	var failing []seeded
 	inconclusive := 0
+	standstill := 0
 	for _, r := range allS {
 		verdicts[r.Verdict]++
 		classes[r.Class]++
@@ -831,6 +833,13 @@ func check(prop, tier string) int {
 		case "inconclusive":
 			inconclusive++
 		default:
+			if pl.IgnoreLiveness && (r.Verdict == "hang" || r.Verdict == "deadlock") {
+				// this property says nothing about termination (C32: races only); its workloads may
+				// legitimately stand still (a background job writing to a pipe nobody drains)
+				inconclusive++
+				standstill++
+				continue
+			}
 			failing = append(failing, r)
 		}
 	}
@@ -956,6 +965,7 @@ func check(prop, tier string) int {
 	knownHit := map[string]int{}
 	unconfirmed := 0
 	shrinkTried := 0
+	var shrinkSpent time.Duration
 	var violLines []string
 	var findingsOut []any
 	os.MkdirAll(filepath.Join(outDir(), "replays"), 0755)
@@ -1012,7 +1022,17 @@ func check(prop, tier string) int {
 		min := *confirmed
 		if confirmed.Case.H != "search-index" {
 			var tried int
-			min, tried = minimise(worker, prop, *confirmed, timeout, 90*time.Second)
+			// minimisation budget: 90 s per violation group, 6 minutes for the whole check; groups beyond
+			// that are reported with their confirmed, unminimised witness
+			budget := 90 * time.Second
+			if left := 6*time.Minute - shrinkSpent; left < budget {
+				budget = left
+			}
+			ts := time.Now()
+			if budget > 5*time.Second {
+				min, tried = minimise(worker, prop, *confirmed, timeout, budget)
+			}
+			shrinkSpent += time.Since(ts)
 			shrinkTried += tried
 			// final run with full recording; replay by explicit decisions when the case is a single bubble
 			full, ok := runCase(worker, prop, min.Case, true, timeout)
@@ -1082,6 +1102,7 @@ func check(prop, tier string) int {
 	cov["anon_goroutine_hazards"] = anon
 	cov["leaked_goroutines"] = leaked
 	cov["inconclusive"] = inconclusive
+	cov["standstill_not_judged"] = standstill
 	cov["unconfirmed_not_reported"] = unconfirmed
 	cov["determinism_reruns"] = detChecked
 	cov["determinism_mismatches"] = detMismatch
